@@ -18,6 +18,27 @@ inline void World::machine_crash() {
   scn->after_machine_crash(*this);
 }
 
+static inline std::string esc_(const std::string &s) { std::string o; for (size_t i = 0; i < s.size() && o.size() < 120; i++) { unsigned char c = s[i]; if (c >= 32 && c < 127) o += c; else { char b[8]; snprintf(b, sizeof b, "\\x%02x", c); o += b; } } return o; }
+inline void World::crash_report(Proc &p, long sig) {
+      { std::string prog = p.name.substr(p.name.rfind('/') == std::string::npos ? 0 : p.name.rfind('/') + 1), kind = "signal" + std::to_string(sig), where, excerpt;
+        if (!san_log_prefix.empty()) {   // the sanitizer's own report, if any, names the kind of error and the function
+          std::ifstream f(san_log_prefix + "." + std::to_string(p.realpid)); std::stringstream ss; ss << f.rdbuf(); std::string rep = ss.str();
+          size_t e = rep.find("ERROR: AddressSanitizer: "); if (e != std::string::npos) { size_t b = e + 25, q = rep.find_first_of(" \n", b); kind = rep.substr(b, q - b); }
+          else if ((e = rep.find("runtime error: ")) != std::string::npos) { kind = "undefined-behaviour"; }
+          // frames are printed as "(binary+0xoffset)" (no symbolizer is reachable from inside the model): resolve those of the
+          // program itself with addr2line here, in the controller
+          { size_t pos = 0; int nres = 0; std::string sym; while (nres < 6 && (pos = rep.find("  (", pos)) != std::string::npos) { size_t b = pos + 3, plus = rep.find("+0x", b), close = rep.find(')', b); pos = b; if (plus == std::string::npos || close == std::string::npos || plus > close) continue;
+              std::string bin = rep.substr(b, plus - b), off = rep.substr(plus + 1, close - plus - 1); if (bin.find("/lib") == 0 || bin.find("libasan") != std::string::npos || bin.find("libubsan") != std::string::npos || bin.find("libvk") != std::string::npos) continue;
+              std::string cmd = "addr2line -f -e '" + bin + "' " + off + " 2>/dev/null"; FILE *fp = popen(cmd.c_str(), "r"); if (!fp) continue; char l1[300] = "", l2[300] = ""; if (fgets(l1, sizeof l1, fp) && fgets(l2, sizeof l2, fp)) { std::string fn = l1, fl = l2; while (!fn.empty() && fn.back() == '\n') fn.pop_back(); while (!fl.empty() && fl.back() == '\n') fl.pop_back(); size_t sl = fl.rfind('/'); if (sl != std::string::npos) fl = fl.substr(sl + 1); if (where.empty() && fn != "??") where = fn; sym += " <- " + fn + " (" + fl + ")"; nres++; } pclose(fp); }
+            if (!sym.empty()) rep = "frames:" + sym + " || " + rep; }
+          if (where.empty()) { size_t pos = 0; while ((pos = rep.find(" in ", pos)) != std::string::npos) { size_t b = pos + 4, q = rep.find_first_of(" \n", b); std::string fn = rep.substr(b, q - b); pos = q == std::string::npos ? rep.size() : q; if (fn.compare(0, 2, "__") == 0 || fn == "memcpy" || fn == "memmove" || fn == "strlen" || fn == "free" || fn == "malloc" || fn == "realloc" || fn.find("sanitizer") != std::string::npos || fn.find("asan") != std::string::npos) continue; where = fn; break; } }
+          excerpt = rep.substr(0, 1500); for (auto &ch : excerpt) if (ch == '\n') ch = '|';
+        }
+        std::string key = "crash:" + prog + ":" + kind + (where.empty() ? "" : ":" + where);
+        std::string text = p.name + " died from signal " + std::to_string(sig) + (sig == 6 ? " (abort: sanitizer report or failed assertion)" : " (memory fault)") + " after " + std::to_string(p.nsteps) + " calls; argv: " + [&]() { std::string a; for (auto &x : p.argv) a += "[" + esc_(x).substr(0, 200) + "]"; return a; }() + (crash_context.empty() ? "" : "; input: " + crash_context) + (excerpt.empty() ? "" : "; report: " + excerpt);
+        if (crash_soft) soft_violation(key, text); else violation(key, text); }
+}
+
 inline void World::step(Proc &p) {
   total_steps++; p.nsteps++;
   vk_slot *s = &shm->slot[p.slot];
@@ -130,7 +151,6 @@ static inline std::string opname(int op) {
   return "op" + std::to_string(op);
 }
 
-static inline std::string esc_(const std::string &s) { std::string o; for (size_t i = 0; i < s.size() && o.size() < 120; i++) { unsigned char c = s[i]; if (c >= 32 && c < 127) o += c; else { char b[8]; snprintf(b, sizeof b, "\\x%02x", c); o += b; } } return o; }
 static inline void fill_vkstat(Kernel &k, Inode *i, std::string &out) {
   (void) k;
   vk_stat v; memset(&v, 0, sizeof v);
@@ -416,23 +436,7 @@ inline bool World::exec_op(Proc &p, Step &st, std::string &out, long *aout, long
     case VK_EXIT: { note("pid " + std::to_string(p.vpid) + " (" + p.name + ") exit " + std::to_string(r.a[0])); set_reply(p, 0, 0); reply(p); slot_used[p.slot] = false; ret = r.a[0]; proc_die(p, (int) ((r.a[0] & 255) << 8)); return true; }
     case VK_FATAL: { note("pid " + std::to_string(p.vpid) + " (" + p.name + ") FATAL SIGNAL " + std::to_string(r.a[0]));
       // a simulated program really crashed (SIGSEGV/SIGBUS/SIGFPE/SIGILL) or aborted (sanitizer report, abort()): never acceptable
-      { std::string prog = p.name.substr(p.name.rfind('/') == std::string::npos ? 0 : p.name.rfind('/') + 1), kind = "signal" + std::to_string(r.a[0]), where, excerpt;
-        if (!san_log_prefix.empty()) {   // the sanitizer's own report, if any, names the kind of error and the function
-          std::ifstream f(san_log_prefix + "." + std::to_string(p.realpid)); std::stringstream ss; ss << f.rdbuf(); std::string rep = ss.str();
-          size_t e = rep.find("ERROR: AddressSanitizer: "); if (e != std::string::npos) { size_t b = e + 25, q = rep.find_first_of(" \n", b); kind = rep.substr(b, q - b); }
-          else if ((e = rep.find("runtime error: ")) != std::string::npos) { kind = "undefined-behaviour"; }
-          // frames are printed as "(binary+0xoffset)" (no symbolizer is reachable from inside the model): resolve those of the
-          // program itself with addr2line here, in the controller
-          { size_t pos = 0; int nres = 0; std::string sym; while (nres < 6 && (pos = rep.find("  (", pos)) != std::string::npos) { size_t b = pos + 3, plus = rep.find("+0x", b), close = rep.find(')', b); pos = b; if (plus == std::string::npos || close == std::string::npos || plus > close) continue;
-              std::string bin = rep.substr(b, plus - b), off = rep.substr(plus + 1, close - plus - 1); if (bin.find("/lib") == 0 || bin.find("libasan") != std::string::npos || bin.find("libubsan") != std::string::npos || bin.find("libvk") != std::string::npos) continue;
-              std::string cmd = "addr2line -f -e '" + bin + "' " + off + " 2>/dev/null"; FILE *fp = popen(cmd.c_str(), "r"); if (!fp) continue; char l1[300] = "", l2[300] = ""; if (fgets(l1, sizeof l1, fp) && fgets(l2, sizeof l2, fp)) { std::string fn = l1, fl = l2; while (!fn.empty() && fn.back() == '\n') fn.pop_back(); while (!fl.empty() && fl.back() == '\n') fl.pop_back(); size_t sl = fl.rfind('/'); if (sl != std::string::npos) fl = fl.substr(sl + 1); if (where.empty() && fn != "??") where = fn; sym += " <- " + fn + " (" + fl + ")"; nres++; } pclose(fp); }
-            if (!sym.empty()) rep = "frames:" + sym + " || " + rep; }
-          if (where.empty()) { size_t pos = 0; while ((pos = rep.find(" in ", pos)) != std::string::npos) { size_t b = pos + 4, q = rep.find_first_of(" \n", b); std::string fn = rep.substr(b, q - b); pos = q == std::string::npos ? rep.size() : q; if (fn.compare(0, 2, "__") == 0 || fn == "memcpy" || fn == "memmove" || fn == "strlen" || fn == "free" || fn == "malloc" || fn == "realloc" || fn.find("sanitizer") != std::string::npos || fn.find("asan") != std::string::npos) continue; where = fn; break; } }
-          excerpt = rep.substr(0, 1500); for (auto &ch : excerpt) if (ch == '\n') ch = '|';
-        }
-        std::string key = "crash:" + prog + ":" + kind + (where.empty() ? "" : ":" + where);
-        std::string text = p.name + " died from signal " + std::to_string(r.a[0]) + (r.a[0] == 6 ? " (abort: sanitizer report or failed assertion)" : " (memory fault)") + " after " + std::to_string(p.nsteps) + " calls; argv: " + [&]() { std::string a; for (auto &x : p.argv) a += "[" + esc_(x).substr(0, 200) + "]"; return a; }() + (crash_context.empty() ? "" : "; input: " + crash_context) + (excerpt.empty() ? "" : "; report: " + excerpt);
-        if (crash_soft) soft_violation(key, text); else violation(key, text); }
+      crash_report(p, r.a[0]);
       set_reply(p, 0, 0); reply(p); slot_used[p.slot] = false; ret = r.a[0]; proc_die(p, (int) (r.a[0] & 127)); return true; }
     case VK_WAITPID: {
       Proc *z = nullptr;
